@@ -46,6 +46,13 @@ PROP = {  # commit subject fragment -> (property, key)
  "only the owning thread stops the tracer on exit": ("C32", "abandoned-thread-stops-tracer-2"),
  "compared cached values with themselves": ("C22", "coverage-guard-reads-cached-values"),
  "restoring the unminimized suite raised TypeError": ("C22", "restore-path-typeerror"),
+ "root-dependent goals were missed": ("C07", "root-dependence-over-unlabelled-edges"),
+ "kept a stale branch value": ("C07", "relinked-dependence-stale-branch-value"),
+ "ignored for decorated functions": ("C08", "decorated-scope-lookup"),
+ "only-cover skipped nested scopes": ("C08", "only-cover-nested-scopes"),
+ "else clause whose body is a single if": ("C08", "else-with-single-if"),
+ "branch goals were registered on excluded lines": ("C08", "predicate-on-excluded-line"),
+ "scopes defined inside an excluded branch": ("C08", "scope-defined-in-excluded-branch"),
  "KeyError for a loop in dead code": ("C06", "dead-code-cycle"),
  "beyond chromosome_length": ("C15", "insertion-exceeds-chromosome-length"),
  "statements binding a lambda": ("C24", "seed-parser-drops-lambda-statements"),
